@@ -612,3 +612,4 @@ def check(run, replay=None):
 
 # workloads added in seeding rounds 7-10 (DESIGN.md sections 13.9-13.12)
 LEVEL_TEXT = LEVEL_TEXT + ' Later additions: the print precision of a title is the pinned format table (vlib/pinned_columnfile_formats.json); parameter files carried through indexer.loadpars / savepars.'
+LEVEL_TEXT = LEVEL_TEXT + ' Round 11: one columnfile object reused for another file (text -> HDF5 -> text); AnalysisSchema exports and saves from one object.'
